@@ -72,44 +72,42 @@ impl OverlapChecker
         size: usize)
         -> (usize, Option<&OverlapCheckerEntry>)
     {
-        let index = self.entries.binary_search_by(|e| {
-            e.position.cmp(&position)
+        // Index of the first entry at or after the new position
+        let index = self.entries.partition_point(|e| {
+            e.position < position
         });
 
-        match index
+        // Empty entries occupy nothing, so they neither
+        // overlap anything nor hide their neighbours
+        if size > 0
         {
-            Ok(i) =>
+            for next in &self.entries[index..]
             {
-                if self.entries[i].size > 0 && size > 0
+                if next.position >= position + size
                 {
-                    return (i + 1, Some(&self.entries[i]));
+                    break;
                 }
 
-                (i + 1, None)
+                if next.size > 0
+                {
+                    return (index, Some(next));
+                }
             }
 
-            Err(i) =>
+            for prev in self.entries[..index].iter().rev()
             {
-                if i < self.entries.len()
+                if prev.size > 0
                 {
-                    let next = &self.entries[i];
-                    if position + size > next.position
-                    {
-                        return (i, Some(next));
-                    }
-                }
-
-                if i > 0 && i - 1 < self.entries.len()
-                {
-                    let prev = &self.entries[i - 1];
                     if prev.position + prev.size > position
                     {
-                        return (i - 1, Some(prev));
+                        return (index, Some(prev));
                     }
-                }
 
-                (i, None)
+                    break;
+                }
             }
         }
+
+        (index, None)
     }
 }
